@@ -29,7 +29,9 @@ vars == <<tid, l, S, full>>
 Init ==
   /\ tid \in DOMAIN Hands
   /\ l = 0
-  /\ Force(CreateOK(tid, Hands[tid]))
+  \* a record that resumes a hand from an observed state (the repository's tests sometimes assign the deck directly) is not
+  \* compared with the model's creation
+  /\ Force(("resume" \in DOMAIN Hands[tid] /\ Hands[tid].resume) \/ CreateOK(tid, Hands[tid]))
   /\ S = IF Hands[tid].create.out = "ok" THEN Hands[tid].create.post ELSE [fault |-> "create:" \o Hands[tid].create.out]
   /\ full = IF Hands[tid].create.out = "ok" THEN Hands[tid].create.post.log ELSE <<>>
 
